@@ -599,6 +599,9 @@ def load(I, arr, idx, node, env):
                     a2 = a1[1].split(hi - lo)
                     if a2 is not None:
                         return Arr(((hi - lo).expand(),), Unknown("index vector"), arr.dtype, {"ivec": a2[0], "slice1d": (sl.lo, sl.hi, arr)})
+    pts = arr.meta.get("points")
+    if pts and arr.ndim == 1 and len(items) == 1 and isinstance(items[0], Expr) and const_int(items[0]) in pts:
+        return pts[const_int(items[0])]
     g = _index_gather(I, arr, items, node)
     if g is not None:
         return g
@@ -1172,6 +1175,10 @@ def store(I, arr, idx, v, node, env):
                 new.val = alg.fn("shifted", sv)
         elif isinstance(new.val, Expr) and isinstance(sv, Expr) and arr.ndim == 1:
             new.val = alg.fn("upd", new.val, sv)
+            if level[0] == "elem" and isinstance(level[1], Expr) and const_int(level[1]) is not None and const_int(level[1]) >= 0:
+                pts = dict(arr.meta.get("points") or {})
+                pts[const_int(level[1])] = sv  # the entry at this fixed position is known exactly
+                new.meta["points"] = pts
         elif isinstance(new.val, Expr) and isinstance(sv, Expr):
             # a block of a multi-dimensional array overwritten: which entries hold what is not modelled
             new.val = Unknown("%s assembled by partial stores (line %s)" % (arr.name or "array", getattr(node, "lineno", "?")))
@@ -2081,6 +2088,35 @@ def _last_of(val):
     return out * alg.fn("last", inner)
 
 
+def np_ndim(I, args, kwargs, node):
+    x = args[0] if args else None
+    if isinstance(x, Arr):
+        return alg.const(x.ndim)
+    if isinstance(x, (Expr, bool)) or (isinstance(x, str) and True):
+        return ZERO
+    if isinstance(x, I_.PyList) or (isinstance(x, Tup) and x.kind in ("list", "tuple") and not any(isinstance(i, (Tup, I_.PyList, Arr)) for i in x.items)):
+        return ONE
+    return Unknown("np.ndim of %r" % (x,))
+
+
+def np_broadcast_shapes(I, args, kwargs, node):
+    """np.broadcast_shapes of one-dimensional shapes: a dimension of 1 stretches to any other, two other dimensions must agree"""
+    dims = []
+    for a in args:
+        if not (isinstance(a, Tup) and len(a.items) == 1 and isinstance(a.items[0], Expr)):
+            return Unknown("np.broadcast_shapes of %r" % (a,))
+        dims.append(a.items[0])
+    cur = ONE
+    for d in dims:
+        if I.truth(I.cmp_expr(cur - ONE, "==")):
+            cur = d
+        elif I.truth(I.cmp_expr(d - ONE, "==")) or I.truth(I.cmp_expr(d - cur, "==")):
+            pass
+        else:
+            raise I_.raise_exc("ValueError", node, "shape mismatch: objects cannot be broadcast to a single shape")
+    return Tup([cur])
+
+
 def np_isclose(whole):
     """np.isclose / np.allclose(a, b, rtol=1e-5, atol=1e-8): |a - b| <= atol + rtol * |b| - a threshold test, not a test against zero"""
     def h(I, args, kwargs, node):
@@ -2596,6 +2632,13 @@ def fftfreq(I, args, kwargs, node):
     if not (isinstance(n, Expr) and isinstance(d, Expr)):
         return Unknown("fftfreq")
     k = ZERO if I.ctx == "mean" else alg.fn("fftidx", n, integer=True)
+    if I.ctx != "mean":
+        # the analysis point is a generic mode other than the mean mode: its two integer wavenumbers are not both zero
+        seen = I.__dict__.setdefault("fftidx_seen", [])
+        if not any(k.eq(x) for x in seen):
+            for x in seen:
+                I.facts.refine((k * k + x * x - ONE).expand(), {"0", "+"})
+            seen.append(k)
     return Arr((n,), k / (n * d), "float", {"spec1d": True, "modegrid": True, "fftfreq": (n, d)})
 
 
@@ -2786,6 +2829,7 @@ EXT = {
     "numpy.isnan": np_classify("isnan"), "numpy.isinf": np_classify("isinf"), "numpy.isfinite": np_classify("isfinite"),
     "numpy.any": np_anyall("any"), "numpy.all": np_anyall("all"),
     "numpy.isclose": np_isclose(False), "numpy.allclose": np_isclose(True),
+    "numpy.ndim": np_ndim, "numpy.broadcast_shapes": np_broadcast_shapes,
     "numpy.sqrt": unary(alg.sqrt),
     "numpy.exp": unary(alg.exp),
     "numpy.log": unary(alg.log),
